@@ -75,6 +75,7 @@ func (this *zzCanaryQueue) Get() interface{} {
 }
 
 var reQueueSize = regexp.MustCompile(`queue(\d?)\.Size\(\)`)
+var reLaneField = regexp.MustCompile(`(\w+)\[\w*?(\d)\]\.(queue|capacity|failed|overflowed)`)
 var reParenQueue = regexp.MustCompile(`\((queue\d?)\)`)
 
 // queueCtx builds the paths configuration for a method of a queue type.
@@ -282,6 +283,9 @@ func (q *queueCtx) norm(e ast.Expr) string {
 	s = strings.ReplaceAll(s, "(&"+q.recv+".", "("+q.recv+".")
 	s = strings.ReplaceAll(s, "&"+q.recv+".", q.recv+".")
 	s = strings.ReplaceAll(s, q.recv+".", "")
+	// lanes kept in an array of records (lanes[lane1].queue, lanes[lane1].capacity): the lane's number
+	// is the one its index constant carries
+	s = reLaneField.ReplaceAllString(s, "$3$2")
 	s = reParenQueue.ReplaceAllString(s, "$1")
 	s = reQueueSize.ReplaceAllString(s, "size$1")
 	s = strings.ReplaceAll(s, " ", "")
